@@ -387,6 +387,11 @@ impl WorkerTree {
             });
 
             for node_index in remove_nodes {
+                // unregister the item from the external dependencies before it disappears
+                if self.graph.contains_node(node_index) {
+                    self.restart_work(node_index);
+                }
+
                 if let Some(work_item) = self.graph.remove_node(node_index) {
                     if !work_item.data.is_in_place() {
                         self.remove_files
@@ -396,7 +401,17 @@ impl WorkerTree {
             }
         }
 
-        self.update_external_dependencies(&path);
+        // restart what depends on the removed path or on anything below it
+        let removed_dependencies: Vec<PathBuf> = self
+            .external_dependencies
+            .keys()
+            .filter(|dependency| dependency.starts_with(&path))
+            .cloned()
+            .collect();
+
+        for dependency in removed_dependencies {
+            self.update_external_dependencies(&dependency);
+        }
     }
 
     /// Checks if a source file is present in the worker tree.
